@@ -30,6 +30,7 @@ def main():
     env['PYTHONPATH'] = VERIF + ':' + os.path.join(VERIF, 'harness', 'shim') + ':' + env.get('PYTHONPATH', '')
     env['PYTHONHASHSEED'] = '0'
     env.setdefault('OMP_NUM_THREADS', '1')
+    env.setdefault('OPENBLAS_NUM_THREADS', '1')
     args = ['/venv/bin/python', os.path.join(VERIF, 'harness', 'runner.py'), prop, tier, str(seed)]
     if replay:
         args.append(replay)
